@@ -12,7 +12,9 @@
    [rf_is_request_line], [rf_unescape_roff] inside [rf_doc_text]) and the general
    expectation [rf_general_doc] (styles accumulate, 256-colour / RGB forms select a colour). *)
 From Coq Require Import NArith List Bool.
+From AV Require Model.Text.
 From AV Require Import Spec.Lossy Spec.StyleRec Spec.RoffSpec Model.Base Model.Roff Proofs.Roff Generated.RoffFn Proofs.RoffGen.
+From AV Require Import Generated.CansiFn Proofs.CansiSgr Proofs.CansiGen.
 Import ListNotations.
 Local Open Scope N_scope.
 
@@ -126,3 +128,42 @@ Theorem c15_translated_document_shape : forall segs : list rf_seg,
   Forall (fun s => rf_bold_and_faint s = false) segs ->
   (ls <- g_to_roff (rf_print_D segs) ;; Some (rf_render ls)) = Some (rf_spec_doc segs).
 Proof. exact translated_document_shape. Qed.
+
+(* ---- the translated dependency cansi (tools/gen_fn_cansi.py -> Generated/CansiFn.v) ----------------------
+   [g_cansi_parse], [g_cansi_adjust_sgr], [g_cansi_handle_seq], [g_cansi_categorise_text] are the functions of the
+   third-party crate cansi (src/parsing.rs, src/categorise.rs of the registry copy of the version Cargo.lock pins)
+   translated by tools/rs2v on every run; [rf_categorise] / [rf_adjust_sgr] / [rf_handle_seq] is the hand model the
+   theorems above are about. *)
+
+(* adjust_sgr, all 48 arms and the wildcard (incl. the recorded quirks: "0" answers SGR::default() -- with
+   handle_seq's fold from the default that is F15-1; no arm for 38 / 48 -- F15-2; ONE intensity field written by
+   1, 2 and 22 -- F15-3) *)
+Theorem c15_translated_cansi_adjust_sgr_is_model : forall (sgr : rf_sgr) (seq : list N),
+  g_cansi_adjust_sgr sgr seq = rf_adjust_sgr sgr seq.
+Proof. exact g_cansi_adjust_sgr_eq. Qed.
+
+(* handle_seq on a Match as parse records it (ESC [ parameters terminator): split at ';', folded from SGR::default() *)
+Theorem c15_translated_cansi_handle_seq_is_model : forall (a e : N) (p : list N) (tb : N),
+  g_cansi_handle_seq (mkRfMatch a e (27 :: 91 :: p ++ [tb])) = Some (rf_handle_seq p).
+Proof. exact g_cansi_handle_seq_eq. Qed.
+
+(* parse (both loops, byte offsets, the char-wise step) never panics and finds exactly the matches [rf_matches]
+   (Proofs/CansiGen.v: a structural function of the text that is left) -- for EVERY byte string *)
+Theorem c15_translated_cansi_parse_is_matches : forall text : list N,
+  g_cansi_parse text = Some (rf_matches (S (S (length text))) 0 text).
+Proof. exact g_cansi_parse_eq. Qed.
+
+(* cansi::v3::categorise_text IS the hand model's one-pass categoriser on every string of UTF-8 shaped chars ... *)
+Theorem c15_translated_cansi_categorise_is_model : forall text : list N,
+  rf_utf8_ok text -> g_cansi_categorise_text text = Some (rf_categorise text).
+Proof. exact g_cansi_categorise_text_eq. Qed.
+
+(* ... which the bytes of every Rust string are (the UTF-8 encoding of any list of code points, Model/Text.v) *)
+Theorem c15_translated_cansi_categorise_on_strings : forall w : list N,
+  g_cansi_categorise_text (Model.Text.str_bytes w) = Some (rf_categorise (Model.Text.str_bytes w)).
+Proof. exact translated_cansi_categorise_is_model. Qed.
+
+(* the pipeline with the translated cansi in front is the hand model [rf_to_roff] of the theorems above *)
+Theorem c15_translated_cansi_to_roff_is_model : forall input : list N, rf_utf8_ok input ->
+  (cs <- g_cansi_categorise_text input ;; ls <- rf_doc_lines cs ;; Some (rf_render ls)) = rf_to_roff input.
+Proof. exact translated_cansi_to_roff_is_model. Qed.
